@@ -302,6 +302,7 @@ bloom_filter_alloc<A> bloom_filter_alloc<A>::deserialize(std::istream& is, const
   const uint64_t num_bits_set = read<uint64_t>(is);
   if (!is.good()) throw std::runtime_error("error reading from std::istream");
   const bool is_dirty = (num_bits_set == DIRTY_BITS_VALUE);
+  if (num_longs == 0) throw std::invalid_argument("Possible corruption: non-empty filter with a bit array of length 0");
 
   // allocate memory
   const uint64_t num_bytes = static_cast<uint64_t>(num_longs) << 3;
@@ -380,6 +381,7 @@ bloom_filter_alloc<A> bloom_filter_alloc<A>::internal_deserialize_or_wrap(void* 
     return bloom_filter_alloc<A>(static_cast<uint64_t>(num_longs) << 6, num_hashes, seed, allocator);
   }
 
+  if (num_longs == 0) throw std::invalid_argument("Possible corruption: non-empty filter with a bit array of length 0");
   ensure_minimum_memory(length_bytes, BIT_ARRAY_OFFSET_BYTES);
   uint64_t num_bits_set;
   ptr += copy_from_mem(ptr, num_bits_set);
